@@ -68,7 +68,7 @@ partial def parseItem (tok : Array String) (pos : Nat) : Option (Item × Nat) :=
             | none => none
           | none => none
         let (body, p) ← loop (pos + 9) #[]
-        some (.call d0 body.toList, p)
+        some (.call d0 body.toList [], p)
       | _ => none
     | some k => do
       let n ← (tok[pos + 2]?).bind String.toNat?
